@@ -44,6 +44,7 @@ class Model:
         fa, cfg = self.fa, self.fa.cfg
         # roles: the destination folder and the two marker files
         self.dst = self.start = self.end = None
+        self.end_parent = self.end_sibling_of = None
         for n, var, val in fa.stores():
             if val is None:
                 continue
@@ -56,6 +57,12 @@ class Model:
                 self.start, self.dst = var, getattr(val.left, "id", None)
             if any("end" in c for c in consts) and isinstance(val, ast.BinOp):
                 self.end = var
+                self.end_parent = getattr(val.left, "id", None)
+            if any("end" in c for c in consts) and isinstance(val, ast.Call) and isinstance(val.func, ast.Attribute) and \
+                    val.func.attr == "with_name" and isinstance(val.func.value, ast.Name):
+                # <start marker>.with_name("...end..."): a sibling of the start marker, i.e. a child of the same folder
+                self.end = var
+                self.end_sibling_of = val.func.value.id
         self.kind: Dict[int, Tuple[str, str]] = {}
         for n in sorted(cfg.nodes):
             nd = cfg.nodes[n]
@@ -392,6 +399,14 @@ def run(prog: Program, rep: Report, tier: str):
         fi = progk.func(rel, fname)
         m = Model(progk, fi)
         rep.require(m.dst and m.start and m.end, f"anchor-missing: destination / marker paths in {fname}")
+        rep.rule("I1.marker-location", "start and end marker are files directly inside the destination folder of this copy (dst / "
+                 "<name>): a marker kept elsewhere - e.g. in the common parent of several destinations - is shared between copies, "
+                 "and one copy's completion vouches for another's interrupted data")
+        end_in_dst = (m.end_parent == m.dst) if m.end_parent is not None else (
+            (m.end_sibling_of == m.start) if m.end_sibling_of is not None else None)
+        rep.decide(end_in_dst, "I1.marker-location", fi, "end-marker", "the end marker lies in the destination folder",
+                   f"the end marker is created under '{m.end_parent or m.end_sibling_of}', not under the destination folder "
+                   f"'{m.dst}': with relative_path several destinations share it", clause="C20.I1")
         kinds = sorted({k[0] for k in m.kind.values()})
         unknown_ = sorted({k[1] for k in m.kind.values() if k[0] == "unknown-destructive"})
         if unknown_:
